@@ -152,6 +152,7 @@ BOUNDS = {"midnight": (2024, 7, 18), "month-end": (2024, 5, 1), "month-end-30": 
           "noon": (2024, 7, 17, 12), "hour": (2024, 7, 17, 14)}
 DATE_MODES = ["in-line", "between-lines", "at-on", "at-off", "on-999", "off-999", "first-on-999"]
 POISON = -12345.0
+SPOT_WIDTH = 32                                                # characters of the Spot Size column the reader keeps (U32)
 SPECIALS = [math.inf, -math.inf, -0.0, 0.0, 5e-324, 1e30, -1e30, 1.0]
 
 
@@ -350,7 +351,7 @@ class C08(Prop):
     assumptions = ["ground truth is demanded only where the property's text defines it: one sample per pixel; every imported line "
                    "is recorded completely, not at all, or from some pixel to its end (late start of the signal = positive "
                    "delay); signals that stop in the middle of a line are not generated; selected patterns share one spot size and pixel grid "
-                   "and do not overlap; the log lies between 1970 and the year 10000 and no spot size string is longer than the 16 "
+                   "and do not overlap; the log lies between 1970 and the year 10000 and no spot size string is longer than the 32 "
                    "characters the reader keeps (textHyp); other cases are counted as undetermined",
                    "without squeeze the result is compared as the set of non-NaN pixels (row, column, element values) from "
                    "the reported origin; the NaN margin of the canvas is compared against the model only",
@@ -381,7 +382,14 @@ class C08(Prop):
             kind = rng.choice(["square", "rect", "circ"])
             sxu = rng.choice(SPOTS) if rng.random() < 0.7 else rng.randint(1000, 999999)
             syu = sxu if kind != "rect" else (rng.choice(SPOTS) if rng.random() < 0.7 else rng.randint(1000, 999999))
-            if spot_len(sxu, syu, kind == "circ") <= 16:       # the reader keeps 16 characters of the spot size
+            if rng.random() < 0.12:
+                # spot size strings of 17..32 characters: large rectangular spots with fractional sizes
+                # ("1000.25 x 1000.25", "12345.6789 x 2345.0001", up to nine integer digits)
+                kind, hi = "rect", rng.choice([10 ** 8, 10 ** 8, 10 ** 9, 10 ** 13])
+                sxu, syu = rng.randint(hi // 10, hi - 1), rng.randint(hi // 10, hi - 1)
+                if rng.random() < 0.3:
+                    sxu = syu = 10002500
+            if spot_len(sxu, syu, kind == "circ") <= SPOT_WIDTH:   # the reader keeps 32 characters of the spot size
                 return sxu, syu, kind == "circ"
 
     def gen_origin(self, rng):
@@ -615,9 +623,11 @@ class C08(Prop):
                           nan_plan=[{"elems": [0], "what": "line", "idx": 1, "pat": None},
                                     {"elems": [2], "what": "along", "idx": 0, "pat": None},
                                     {"elems": [1], "what": "mod", "mod": 2, "rem": 1, "idx": 0, "pat": None}])
-        # a spot size string of 17 characters: replayed only once the finding is registered in known_findings.json
-        if any(k.get("id") == self.KNOWN_LONG_SPOT and k.get("kind") == "known" for k in core.load_known()):
-            yield self.simple("lr", False, 2, 3, sxu=10002500, syu=10002500)
+        # spot size strings of 17, 21, 25 and 31 characters (the reader's field held 16 before /repo 134845c)
+        yield self.simple("lr", False, 2, 3, sxu=10002500, syu=10002500)
+        yield self.simple("bt", True, 3, 2, sxu=123456789, syu=23450001, X=-5 * 123456789, squeeze=True, via="array")
+        yield self.simple("rl", True, 2, 4, sxu=1234567891, syu=9876543219, Y=7 * 9876543219)
+        yield self.simple("tb", False, 2, 2, sxu=9999999999999, syu=1000000000001, via="pathobj")
         # HISTORY: two or three synchronisations in one process; the caller edits what each call returned in place
         a = self.simple("lr", False, 3, 4, sxu=400000, syu=400000)
         b = self.simple("rl", True, 2, 5, sxu=400000, syu=400000, X=1205000, Y=-3102500, squeeze=True, via="array")
@@ -873,12 +883,13 @@ class C08(Prop):
         if scalar:
             feats.add("clock+layout:scalar+" + ("len=size" if shape[0] == n else "len<size"))
             feats.add("samples:" + ("1" if n == 1 else "2" if n == 2 else "3+"))
-        # outside the theorems' hypotheses and not judged: no ground truth (truthHyp), or a log that leaves 1970..9999.
-        # A spot size string longer than the 16 characters the reader keeps is still "any spot size": it is judged
-        # (known finding C08-spot-size-string-over-16-characters), only the theorem does not cover it
-        undet = not rep["truth_ok"] or (not rep["text_ok"] and rep["spot_ok"])
-        if not rep["spot_ok"]:
-            feats.add("spot-string>16-characters")
+        # outside the theorems' hypotheses and not judged: no ground truth (truthHyp), a log that leaves 1970..9999, a spot
+        # size string of more than the 32 characters the reader keeps (named restriction; 17..32 are ordinary cases since
+        # the reader's field was widened in /repo 134845c)
+        undet = not rep["hyp"]
+        longest = max(spot_len(p["sxu"], p["syu"], p["circular"]) for p in acq["patterns"])
+        if longest > 16:
+            feats.add("spot-string:17-32-characters" if longest <= SPOT_WIDTH else "spot-string>32-characters")
         return {"impl": impl, "model": model, "spec": spec, "spec_ok": spec_ok, "model_ok": model_ok,
                 "undetermined": undet, "hyp": rep["hyp"], "features": feats, "relation": relation, "returned": returned}
 
@@ -958,19 +969,6 @@ class C08(Prop):
         if any(p["seq"] >= 5 for p in pats):
             f.add("seq>=5")
         return f
-
-    KNOWN_LONG_SPOT = "C08-spot-size-string-over-16-characters"
-
-    def known(self, case, out):
-        """the reader keeps 16 characters of the spot size column: a longer spot size string of the pattern that is read
-        (first selected pattern of the observed call or of an earlier call of its history) loses its last digits"""
-        for step in case.get("history", []) + [case]:
-            idx = selected(step["acq"], step["sel"])
-            if idx:
-                p = step["acq"]["patterns"][idx[0]]
-                if spot_len(p["sxu"], p["syu"], p["circular"]) > 16:
-                    return self.KNOWN_LONG_SPOT
-        return None
 
     # ------------------------------------------------------------------ shrinking
     def shrink(self, case):
